@@ -70,11 +70,14 @@ def main():
             out.append(attempt("opcode %#x %s" % (v, mname), "OpcodeException", (lambda c=call, s=s: c(s)), dev))
     # 4. EXTENDED COPY descriptors with unknown keys / codes / lu_id_type
     good_t = {"descriptor_type_code": 0xE4, "peripheral_device_type": 0x00}
-    bad_targets = [("unknown key", [dict(good_t, bogus_key=1)]), ("unknown descriptor type code", [dict(good_t, descriptor_type_code=0x99)]),
+    odd_keys = [("empty-string key", ""), ("blank key", " "), ("key 0", 0), ("key None", None), ("upper-case known key", "PERIPHERAL_DEVICE_TYPE")]
+    bad_targets = [("unknown key", [dict(good_t, bogus_key=1)])] + [("unknown key: %s" % lab, [dict(list(good_t.items()) + [(k, 1)])]) for lab, k in odd_keys] + [
+                   ("two unknown keys one of them empty", [dict(list(good_t.items()) + [("", 1), ("bogus", 2)])]), ("unknown descriptor type code", [dict(good_t, descriptor_type_code=0x99)]),
                    ("unknown descriptor type name", [dict(good_t, descriptor_type_code="no such descriptor")]),
                    ("unknown device type", [dict(good_t, peripheral_device_type=0x77)]),
                    ("lu_id_type 1", [dict(good_t, lu_id_type=1)]), ("lu_id_type 3", [dict(good_t, lu_id_type=3)])]
-    bad_segments = [("segment unknown key", [{"descriptor_type_code": 0x02, "bogus": 1}]),
+    bad_segments = [("segment unknown key", [{"descriptor_type_code": 0x02, "bogus": 1}])] + [
+                    ("segment unknown key: %s" % lab, [{"descriptor_type_code": 0x02, k: 1}]) for lab, k in odd_keys] + [
                     ("segment unknown type code", [{"descriptor_type_code": 0x55}]),
                     ("segment unknown type name", [{"descriptor_type_code": "teleport"}])]
     for which, meth in (("xcopy4", "extendedcopy4"), ("xcopy5", "extendedcopy5")):
